@@ -15,7 +15,7 @@ func init() {
 	register(&PropDef{
 		ID:    "C55",
 		Pkgs:  []string{bl},
-		Claim: "Decides the structural part: binary-log metadata entries are created in one place, only for keys the omit predicate rejects; the omit predicate covers the documented set (lb-token, :path, :authority, content-type, user-agent, te, and every grpc- key except grpc-trace-bin); metadata truncation does not charge grpc-trace-bin against the limit, keeps every grpc-trace-bin entry of the dropped tail, and reports 'truncated' exactly when fewer entries are kept than there were; message truncation cuts to the limit exactly when the message is longer and reports it; every payload kind that carries metadata or a message stores the truncation result in the entry.",
+		Claim: "Decides the structural part: binary-log metadata entries are created in one place, only for keys the omit predicate rejects; the omit predicate covers the documented set (lb-token, :path, :authority, content-type, user-agent, te, and every grpc- key except grpc-trace-bin); metadata truncation does not charge grpc-trace-bin against the limit, keeps every grpc-trace-bin entry of the dropped tail, and reports 'truncated' exactly when fewer entries are kept than there were; message truncation cuts to the limit exactly when the message is longer and reports it; every payload kind that carries metadata or a message stores the truncation result in the entry. The fitting-prefix loop of the metadata truncation stops only at an entry strictly larger than the remaining limit (an exempt key never ends it).",
 		NotDecided:  []string{"'longest prefix' as a value property over arbitrary maps (the entry order itself comes from Go map iteration)"},
 		Assumptions: []string{"proto getters return the stored fields"},
 		Technique:   "static analysis: who-may-construct, dominating guards on go/ssa branch facts, constant-set extraction, value-origin of the stored slice",
